@@ -1375,7 +1375,7 @@ def run(ctx):
         else:
             cases.append(gen_noise_case(ctx.rng, big and i % 3 == 0))
     cases += [copy.deepcopy(c) for c in c15_atmos.DIRECTED]
-    for i in range(ctx.scale(30, 700)):
+    for i in range(ctx.scale(30, 400)):
         cases.append(c15_atmos.gen_atmos_case(ctx.rng, big and i % 3 == 0))
     batch = []
     for case in cases:
